@@ -123,6 +123,7 @@ func TestC11(t *testing.T) {
 		g.Crons = []string{"* * * * *", "@every 1m", "*/2 * * * *", "@every 90s", "0 * * * * *"}
 		g.TimeoutDeltas = []int64{1000, 3000, 8000, 20000, 60000}
 		g.RouteOneIn = 2
+		g.SchedRouteOneIn = 3 // some schedules fire routed promises (promise + task through the create-with-task path)
 		g.W = map[string]int{"CreatePromise": 8, "CreatePromiseAndTask": 2, "CreateCallback": 4, "CreateSubscription": 3, "CompletePromise": 3, "AcquireLock": 3, "CreateSchedule": 3, "ClaimTask": 4, "HeartbeatTasks": 1}
 		s := New(d, BigConfig(), Profile{Permute: true, Hold: 8, Cut: 2, SendFail: 0}, dir)
 		g.Dispatched = func() [][2]any {
@@ -253,6 +254,17 @@ func TestC11(t *testing.T) {
 				}
 			}
 			sn := s.Snaps[s.CurSnap()]
+			// routed scheduled promises add roots (and tasks) while the run goes on: the task dimension is sized by the
+			// roots present so far, not only by those of the initial backlog
+			for _, tk := range sn["tasks"] {
+				if tk.I("state")&(tInit|tEnqueued|tClaimed) != 0 {
+					roots[tk.S("root_promise_id")] = true
+				}
+			}
+			if tasksFit = len(roots) <= cfg.TaskBatchSize; !tasksFit {
+				taskBound = max(taskBound, 8*ceil(len(roots), cfg.TaskBatchSize)+8)
+			}
+			taskLag = max(taskLag, ceil(max(1, len(roots)), cfg.TaskBatchSize)+2)
 			bad := quiescent(sn, refTimes{promises: at(promiseLag), locks: at(1), schedules: at(schedLag), tasks: at(taskLag)}, tasksFit)
 			times = append(times, s.Now)
 			cur := map[string]bool{}
